@@ -109,7 +109,7 @@ def model_phase(ctx, cfg, rounds):
                 ctx.nontrivial(f)
             if r.table != want:
                 coll = len(set(validated.values())) == r.table and len(set(validated.values())) < len(validated)
-                key = KNOWN_COLLISION if coll else ("state_created" if r.table > want else "state_missing")
+                key = "state_missing:equal_cookies_on_distinct_flows" if coll else ("state_created" if r.table > want else "state_missing")
                 ctx.violation(key, "after %s the table holds %d entries, the model (flows that presented their cookie) says %d" % (
                     pkt.summary(f), r.table, want), observed=r.table, expected=want)
                 break
